@@ -84,6 +84,9 @@ type Explorer struct {
 	Sites        map[string]*siteStat
 	Reach        map[string]int
 	Samples      []map[string]any
+	PassSamples  []*Violation // passing paths kept for native validation (-validate N)
+	validateN    int
+	nextPass     int
 	SymVars      int
 	MaxSymVars   int
 	Steps        int64
@@ -963,9 +966,35 @@ func (w *worker) runPath(prefix []decision, hint Model) {
 		}()
 	}
 
+	// a passing path kept for validation against the native build
+	var passSample *Violation
+	if E.validateN > 0 && p.outcome == outReturn && !p.violated && len(p.inconcl) == 0 && !p.concrete {
+		E.mu.Lock()
+		want := len(E.PassSamples) < E.validateN && E.Paths+1 >= E.nextPass
+		E.mu.Unlock()
+		if want {
+			func() {
+				defer func() { recover() }()
+				if m := p.getModel(); m != nil {
+					var reached []string
+					for l := range p.reached {
+						reached = append(reached, l)
+					}
+					sort.Strings(reached)
+					passSample = &Violation{Harness: E.H.Func, Kind: "pass", Model: p.modelCopy(m), Trail: append([]decision{}, p.trail...),
+						Params: E.params, Observed: reached, HashIns: p.i.hashInsDescr()}
+				}
+			}()
+		}
+	}
+
 	// collect
 	E.mu.Lock()
 	E.Paths++
+	if passSample != nil && len(E.PassSamples) < E.validateN {
+		E.PassSamples = append(E.PassSamples, passSample)
+		E.nextPass = E.Paths*4 + 3
+	}
 	E.Outcomes[outcomeNames[p.outcome]]++
 	E.Decisions += len(p.trail)
 	E.Steps += i.steps
